@@ -25,6 +25,7 @@ type symReader struct {
 	pos    int
 	failAt int // -1: never
 	chunks bool
+	chunk  int // > 0: at most this many bytes per Read (several write calls per store)
 }
 
 func (r *symReader) Read(p []byte) (int, error) {
@@ -41,6 +42,9 @@ func (r *symReader) Read(p []byte) (int, error) {
 	}
 	if r.failAt >= 0 && r.pos+n > r.failAt {
 		n = r.failAt - r.pos
+	}
+	if r.chunk > 0 && n > r.chunk {
+		n = r.chunk
 	}
 	if r.chunks && n > 1 {
 		n = symRange(1, n)
